@@ -89,6 +89,10 @@ def _ops():
     ops["BitStream('0xa5c3').readlist('uint:a, bin:b', a=3, b=5)"] = lambda: bitstring.BitStream('0xa5c3').readlist('uint:a, bin:b', a=3, b=5)
     ops["Bits('0xa5').find('0b101')"] = lambda: bitstring.Bits('0xa5').find('0b101')
     ops["Dtype('uint8')"] = lambda: bitstring.Dtype('uint8')
+    ops["Dtype(Dtype('uint8'), scale=4)"] = lambda: bitstring.Dtype(bitstring.Dtype('uint8'), scale=4)
+    ops["Dtype(Array('uint8').dtype, 16)"] = lambda: bitstring.Dtype(bitstring.Array('uint8').dtype, 16)
+    ops["Bits('0x02').unpack('uint8')"] = lambda: bitstring.Bits('0x02').unpack('uint8')
+    ops["Array('uint8', [1, 2])"] = lambda: bitstring.Array('uint8', [1, 2])
     ops["Dtype('e4m3mxfp', scale=4)"] = lambda: bitstring.Dtype('e4m3mxfp', scale=4)
     ops["Dtype('float', 16)"] = lambda: bitstring.Dtype('float', 16)
     ops["Dtype('ue')"] = lambda: bitstring.Dtype('ue')
@@ -255,7 +259,8 @@ def conditions(tier):
                "Dtype('float16', scale=v).build(3.0)", "Array(Dtype('uint8', scale=v), [4]).tolist()", "Dtype('uint', v)", "Bits(uint=3, length=v)"]:
         add(f'C09.equal-keys[{rt}]', h_equal_keys(rt), f'{len(EQUAL_PAIRS)} ordered pairs of equal-comparing values (0.0/-0.0, 1/True/1.0, 0/False/-0.0, 2/2.0) x all option settings; warm vs cold', route=rt)
     triples = [("Bits('e4m3mxfp=1000')", "Bits('ue=3')", "Bits('0b0110')"), ("pack('uint:8, e4m3mxfp', 1, 1000.0)", "Dtype('uint8')", "Bits('uint:8=200')"),
-               ("Bits('0x5a, 0b1')", "BitArray('e4m3mxfp=1000')", "Bits('e5m2mxfp=100000')"), ("pack(['uint:8', 'hex:4'], 7, 'f')", "pack('uint:8', 7)", "Bits('uint:8=200')")]
+               ("Bits('0x5a, 0b1')", "BitArray('e4m3mxfp=1000')", "Bits('e5m2mxfp=100000')"), ("pack(['uint:8', 'hex:4'], 7, 'f')", "pack('uint:8', 7)", "Bits('uint:8=200')"),
+               ("Dtype(Dtype('uint8'), scale=4)", "Dtype('uint8')", "Bits('0x02').unpack('uint8')"), ("Dtype(Array('uint8').dtype, 16)", "Array('uint8', [1, 2])", "Dtype('uint8')")]
     if not q:
         triples += [("Bits('se=-2')", "Bits('uie=5')", "Bits('p4binary=1000')"), ("Dtype('e4m3mxfp', scale=4)", "Dtype('float', 16)", "Array('>H', [1, 2])")]
     for i, tr in enumerate(triples):
@@ -270,5 +275,5 @@ def _ops_names():
             "pack('uint:4, uint:4', 1, 2)", "pack(['uint:8', 'hex:4'], 7, 'f')", "pack('uint:8', 7)", "pack(['uint:n', 'bool', 'int:4'], 7, True, -3, n=8)",
             "Bits('0xa5c3').unpack(['uint:4', 'bits:4, hex'])", "BitStream('0xa5c3').readlist(['uint:4', 'hex:4'])", "pack('uint:n=v', n=8, v=3)", "pack('ue, se', 3, -1)", "pack('>HB', 1, 2)", "Bits('0xa5c3').unpack('uint:4, bits:4, hex')",
             "Bits('0b00100').unpack('ue')", "BitStream('0xa5c3').readlist('uint:a, bin:b', a=3, b=5)", "Bits('0xa5').find('0b101')", "Dtype('uint8')", "Dtype('e4m3mxfp', scale=4)",
-            "Dtype('float', 16)", "Dtype('ue')", "Dtype(' int : 5 ')", "Dtype('e4m3mxfp').build(1000.0)", "Array('>H', [1, 2])", "Array(Dtype('e2m1mxfp', scale='auto'), [0.5, 40.0])",
+            "Dtype('float', 16)", "Dtype(Dtype('uint8'), scale=4)", "Dtype(Array('uint8').dtype, 16)", "Bits('0x02').unpack('uint8')", "Array('uint8', [1, 2])", "Dtype('ue')", "Dtype(' int : 5 ')", "Dtype('e4m3mxfp').build(1000.0)", "Array('>H', [1, 2])", "Array(Dtype('e2m1mxfp', scale='auto'), [0.5, 40.0])",
             "Bits('0b1').pp-free str"]
